@@ -496,6 +496,11 @@ func meshHistories3(r *vlib.Run) {
 					mod.add(t)
 				}
 				muts++
+			case op < 17:
+				if !walkWithEdits3(c, mesh, mod, pool, &all, &hist, rng) {
+					return
+				}
+				muts++
 			default:
 				// query that triggers lazy index construction
 				before := mesh.VerifIndexBuilt()
